@@ -31,3 +31,13 @@ def is_null(name, expr):
     if p["fp"]:
         return "((%s) != (%s))" % (expr, expr)  # NaN
     return "((%s) == %s)" % (expr, p["null"])
+
+
+def load(p, w, be):
+    """explicit byte-wise value of the w-byte field at pointer expression p (no ternaries: usable inside OLD() and assigns conditions)"""
+    idx = list(range(w))
+    terms = []
+    for i in idx:
+        sh = 8 * ((w - 1 - i) if be else i)
+        terms.append("(SPEC_B(%s, %d) << %d)" % (p, i, sh) if sh else "SPEC_B(%s, %d)" % (p, i))
+    return "(" + " | ".join(terms) + ")"
